@@ -236,6 +236,11 @@ def gen_plan(run_seed, tier, index):
             kind_ = 'embedded_break' if '"instance of ' in src and \
                 r.random() < 0.4 else None
             new, descr = mofgen.damage(r, src, kind_)
+            if tgt is None and c['kind'] == 'string' and r.random() < 0.25:
+                # the text of compile_string() with CR LF line ends and
+                # blank lines (files are read with universal newlines)
+                new = new.replace(';\n', ';\n\n').replace('\n', '\r\n')
+                descr += ' +crlf'
             if tgt is None and c['kind'] == 'string':
                 c['text'] = new
             else:
@@ -313,7 +318,8 @@ def gen_plan(run_seed, tier, index):
             elif fk == 'crlf':
                 src = c['text'] if c['kind'] == 'string' \
                     else files[c['path']]
-                src = src.replace('\n', '\r\n')
+                # (with blank lines: runs of line ends are one scanner token)
+                src = src.replace(';\n', ';\n\n').replace('\n', '\r\n')
                 if c['kind'] == 'string':
                     c['text'] = src
                 else:
@@ -333,6 +339,15 @@ def gen_plan(run_seed, tier, index):
                         else t0 + inc
             g.classes = saved[0]
         compiles.append(c)
+        if c.get('include_fault') in ('binary', 'missing') and \
+                r.random() < 0.6:
+            # the unreadable / missing file is repaired and the very same
+            # compile is tried again on the same compiler object
+            rc = {k: v for k, v in c.items() if k != 'include_fault'}
+            rc['retry_of'] = ci
+            rc['rewrite'] = {'inc/f%d.mof' % ci:
+                             'class RT_%d { [Key] string Id; };\n' % ci}
+            compiles.append(rc)
     # the final valid unit, independent of what the history defined
     gf = mofgen.Gen(r, prefix='FIN')
     prods = ['Qualifier FinQ : string = null, Scope(any);']
@@ -716,6 +731,19 @@ def child_main(plan, wfd):
             w.faulty.fault = c.get('fault')
             w.faulty.calls = {}
             w.faulty.fired = 0
+        for rel, content in c.get('rewrite', {}).items():
+            os.makedirs(os.path.dirname(os.path.join(root, rel)),
+                        exist_ok=True)
+            with open(os.path.join(root, rel), 'w', encoding='utf-8',
+                      newline='') as f:
+                f.write(content)
+            plan['files'][rel] = content
+        twin = None
+        if c.get('retry_of') is not None:
+            try:
+                twin = w.fresh_twin()
+            except Exception as e:  # pylint: disable=broad-except
+                bump(probes, 'twin_failed_%s' % type(e).__name__)
         exc = None
         try:
             w.run_compile(c)
@@ -725,6 +753,27 @@ def child_main(plan, wfd):
             exc = e
         v, cls = judge(w, c, exc)
         V += v
+        if twin is not None:
+            e_twin = None
+            try:
+                if w.kind == 'mockapi':
+                    w.run_compile(c, comp=None, conn=twin[0])
+                else:
+                    w.run_compile(c, comp=twin[1])
+            except BaseException as e:  # pylint: disable=broad-except
+                if isinstance(e, (KeyboardInterrupt, SystemExit)):
+                    raise
+                e_twin = e
+            bump(probes, 'retry_after_repair_%s' % (
+                'ok' if exc is None else 'fails_everywhere'
+                if e_twin is not None else 'fails_on_used_compiler_only'))
+            if exc is not None and e_twin is None:
+                V.append(('recovery/retry-after-repair-fails',
+                          'compile %d (%s) failed, its file was repaired and '
+                          'the same compile was tried again: it fails on the '
+                          'used compiler (%s) but succeeds on a fresh '
+                          'compiler over a copy of the repository' % (
+                              c['retry_of'], describe(c), str(exc)[:300])))
         if exc is not None:
             nfailed += 1
         what = 'damage' if 'damage' in c else 'fault' if 'fault' in c else \
